@@ -61,7 +61,37 @@ type FlowClient interface {
 
 // EdgeClient is optionally implemented by clients that learn facts from branch outcomes.
 type EdgeClient interface {
-	Edge(f *FuncCFG, b *cfg.Block, cond ast.Expr, taken bool, st *FState)
+	// Edge is called for every atomic condition whose value is implied by the branch taken;
+	// returning false declares the edge infeasible in this state.
+	Edge(f *FuncCFG, b *cfg.Block, cond ast.Expr, value bool, st *FState) bool
+}
+
+// impliedAtoms lists the atoms of c whose value is determined by c == want.
+func impliedAtoms(c ast.Expr, want bool, out *[]struct {
+	e ast.Expr
+	v bool
+}) {
+	c = ast.Unparen(c)
+	switch x := c.(type) {
+	case *ast.UnaryExpr:
+		if x.Op == token.NOT {
+			impliedAtoms(x.X, !want, out)
+			return
+		}
+	case *ast.BinaryExpr:
+		if (x.Op == token.LAND && want) || (x.Op == token.LOR && !want) {
+			impliedAtoms(x.X, want, out)
+			impliedAtoms(x.Y, want, out)
+			return
+		}
+		if x.Op == token.LAND || x.Op == token.LOR {
+			return // nothing is implied about the individual atoms
+		}
+	}
+	*out = append(*out, struct {
+		e ast.Expr
+		v bool
+	}{c, want})
 }
 
 // FlowResult keeps the states at block entry.
@@ -234,7 +264,20 @@ func (f *FuncCFG) RunFlow(client FlowClient, init FState, assume *Assume) *FlowR
 							continue // infeasible edge
 						}
 						if ec, ok := client.(EdgeClient); ok {
-							ec.Edge(f, b, c, want, &ns)
+							var atoms []struct {
+								e ast.Expr
+								v bool
+							}
+							impliedAtoms(c, want, &atoms)
+							feasible := true
+							for _, a := range atoms {
+								if !ec.Edge(f, b, a.e, a.v, &ns) {
+									feasible = false
+								}
+							}
+							if !feasible {
+								continue
+							}
 						}
 					}
 				}
